@@ -190,7 +190,9 @@ def rdata_name(draw, ctx):
         return [b""]
     if k <= 3 and origin is not None:
         pre = draw(G.rel_labels(max_wire=254 - G.wire_len(origin), max_labels=3))
-        return [G.flip_case(draw, l) for l in pre] + list(origin)
+        # the origin part is sometimes spelled in another case than the origin itself
+        tail = [G.flip_case(draw, l) for l in origin] if draw(st.integers(0, 3)) == 0 else list(origin)
+        return [G.flip_case(draw, l) for l in pre] + tail
     if k <= 5 and pool:
         labs = draw(st.sampled_from(pool))
         return [G.flip_case(draw, l) for l in labs]
